@@ -694,6 +694,13 @@ void QXmppOutgoingClient::handlePacketReceived(const QDomElement &nodeRecv)
 
 HandleElementResult QXmppOutgoingClient::handleElement(const QDomElement &nodeRecv)
 {
+    // If TLS is required, only stream features and stream errors are processed until the stream is
+    // encrypted: stanzas are neither passed to extensions nor answered in clear text.
+    if (d->config.streamSecurityMode() == QXmppConfiguration::TLSRequired && !socket()->isEncrypted() &&
+        !QXmppStreamFeatures::isStreamFeatures(nodeRecv) && nodeRecv.namespaceURI() != ns_stream) {
+        return Rejected;
+    }
+
     // handle SM acks, stanza counter and IQ responses
     if (streamAckManager().handleStanza(nodeRecv) || iqManager().handleStanza(nodeRecv)) {
         return Accepted;
